@@ -36,6 +36,14 @@ def SubKeys.put (k : Str) (v : SubVal) : SubKeys → SubKeys
   | [] => [(k, v)]
   | (k', v') :: rest => if k = k' then (k, v) :: rest else (k', v') :: SubKeys.put k v rest
 
+/-- Go's `==` on two float64 values given by their `%v` texts (which determine the value):
+    equal texts are equal values except for NaN; the two zeros are equal although their texts
+    differ -/
+def numEq (t t' : Str) : Bool :=
+  let z := fun (x : Str) => x == "f:0".toList || x == "f:-0".toList
+  if t == "f:NaN".toList || t' == "f:NaN".toList then false
+  else t == t' || (z t && z t')
+
 /-- does one `skey:sval` condition hold of the map entries `mv`?  (`hasSubKeys` loop body;
     the "!"-test is the `strings.HasPrefix` form, which is total) -/
 def subCond (mv : Entries) (skey : Str) (sval : SubVal) : Bool :=
@@ -50,7 +58,7 @@ def subCond (mv : Entries) (skey : Str) (sval : SubVal) : Bool :=
       let eq := match sval, vv with
         | .str s, .str s' => s == s'
         | .bool b, .bool b' => b == b'
-        | .num t, .num t' => t == t'
+        | .num t, .num t' => numEq t t'
         | _, _ => false
       if eq then !isNot else isNot
 
